@@ -89,6 +89,9 @@ def gen_plan(rng, index, tier):
             # somebody asks for cold (as-input) areas in between; no edit
             steps.append({"op": "coldarea", "level": "block", "idx": rng.randrange(1000), "nuc": 0, "nuc2": 0, "f": 1.0, "frac": 0.1, "mass": 1.0})
             continue
+        if rng.random() < 0.04:
+            steps.append({"op": "takeout", "level": "core", "idx": rng.randrange(1000), "nuc": 0, "nuc2": 0, "f": 1.0, "frac": 0.1, "mass": 1.0})
+            continue
         if bp["geom"] != "cartesian" and sym != "full" and rng.random() < 0.12:
             # edge assemblies on / off: blocks on the symmetry lines become half blocks (and back);
             # the core's mass and volume must not change
@@ -143,6 +146,7 @@ class Runner:
         self.probes = {}
         self.applied = 0
         self.edges_present = False
+        self.outside = []  # assemblies taken out of the core (whole again: no symmetry cut)
         self.sig = []
         self.aw = nucDir.getAtomicWeight
         self.K = units.MOLES_PER_CC_TO_ATOMS_PER_BARN_CM
@@ -178,14 +182,17 @@ class Runner:
         core = self.core
         core_mass = {}
         core_vol = 0.0
-        for a in core:
+        for a in list(core) + list(self.outside):
             a_mass = {}
             a_vol = 0.0
             a_atoms = {}
-            want_sf = self.expected_cut(a)
+            inside = a.parent is core
+            want_sf = self.expected_cut(a) if inside else 1.0
             for b in a:
                 sf = float(b.getSymmetryFactor())
                 if want_sf is not None and sf != want_sf:
+                    if not inside:
+                        self.fail("C02.symmetry", f"step {k}: block {b.getName()} of an assembly taken out of the core reports symmetry factor {sf}", what="factor-outside")
                     self.fail("C02.symmetry", f"step {k}: block {b.getName()} of the assembly at {tuple(int(x) for x in a.spatialLocator.getCompleteIndices()[:2])} reports symmetry factor {sf}; in a {self.plan['config']['blueprint'].get('symmetry')} {self.plan['config']['blueprint'].get('geom')} core it is 1/{want_sf:g} of a block", what="factor", geom=str(self.plan["config"]["blueprint"].get("geom")), symmetry=str(self.plan["config"]["blueprint"].get("symmetry")))
                 comps = list(b)
                 vols = [float(c.getVolume()) for c in comps]
@@ -236,7 +243,9 @@ class Runner:
                 if a_vol and not rel(n_a * a_vol, a_atoms[nuc]):
                     self.fail("C02.additivity", f"step {k}: assembly density x volume of {nuc} {n_a * a_vol} != sum over blocks {a_atoms[nuc]}", what="atoms", level="assembly")
             if not rel(float(a.getVolume()), a_vol):
-                self.fail("C02.volume", f"step {k}: assembly volume {float(a.getVolume())} != sum of block volumes {a_vol}", what="volume", level="assembly")
+                self.fail("C02.volume", f"step {k}: assembly volume {float(a.getVolume())} != sum of block volumes {a_vol}" + ("" if inside else " (an assembly taken out of the core)"), what="volume", level="assembly", inside=inside)
+            if not inside:
+                continue
             for nuc, m in a_mass.items():
                 core_mass[nuc] = core_mass.get(nuc, 0.0) + m
             core_vol += a_vol
@@ -358,6 +367,18 @@ class Runner:
                 self.fail("C02.readback", f"step {k}: setNumberDensity({st['which']}, 1e-4) at component level reads back {got}", what="value", op="setNumberDensity", level="component")
             self.probe("dummy_nuclide_present")
             self.sig.append(("component", "dump"))
+            return True
+        if st["op"] == "takeout":
+            # an assembly leaves the core (its blocks are whole blocks from then on)
+            if len(self.core) < 2 or self.edges_present:
+                return False
+            asms = sorted(self.core, key=lambda a: tuple(int(x) for x in a.spatialLocator.getCompleteIndices()[:2]))
+            a = asms[st["idx"] % len(asms)]
+            a.getVolume(), a.getMass()
+            self.core.removeAssembly(a, discharge=False)
+            self.outside.append(a)
+            self.probe("assembly_taken_out_of_the_core")
+            self.sig.append(("core", "takeout"))
             return True
         if st["op"] == "coldarea":
             blks = c06.objects_at_level(self.r, "block")
